@@ -532,9 +532,28 @@ def _ssa_lite(f):
     return f
 
 
+class _KeepApart(ast.NodeTransformer):
+    """Spellings that sa/match.py identifies for rule MATCHING under a shape
+    assumption (1-D operand) are kept distinct in the normal form, which is a
+    claim of equivalence for every input."""
+
+    def visit_Subscript(self, node):
+        self.generic_visit(node)
+        o = getattr(node, '_canon_origin', None)
+        if o:
+            return ast.copy_location(ast.Call(func=ast.Name(id='__spelled_' + o, ctx=ast.Load()), args=[node], keywords=[]), node)
+        return node
+
+
 def normal_form(fn, sigs=None):
     f = copy.deepcopy(fn)
     f = canon(f)
+    for n in ast.walk(f):
+        # np.array(x) was spelled x.copy() for rule matching; as a claim of
+        # equivalence that is wrong for lists, so the normal form keeps them apart
+        if isinstance(n, ast.Call) and getattr(n, '_from_np_array', False) and isinstance(n.func, ast.Attribute):
+            n.func.attr = 'copy__via_np_array'
+    f = _KeepApart().visit(f)
     f = _Extra(sigs).visit(f)
     f.decorator_list = list(f.decorator_list)
     f.body = _clean_block(f.body) or [ast.Pass()]
